@@ -126,6 +126,10 @@ RECONF_DEVIATIONS = (  # MHReconf.tla: cfg, invariant that must be violated
     ("MHReconf.FlagTrustedWhateverTheCentre.deviation.cfg", "RatioIsMHP"),
 )
 
+OUTSIDE_DEVIATIONS = (  # MHOutside.tla: cfg, action property that must be violated
+    ("MHOutside.InfGuardDropped.deviation.cfg", "NeverAcceptsNonFinite"),
+)
+
 _SERIAL = [0]
 
 
@@ -911,10 +915,6 @@ def reconf_facets(ctx, res):
     ctx.model_must_hold(res["reconf"], "MHReconf")
     ctx.model_must_hold(res["relayout"], "MHReconf(layouts)")
     ctx.model_must_hold(res["propsym"], "MHReconf(proposal objects)")
-    for cfg, inv in RECONF_DEVIATIONS:
-        r = res[cfg]
-        if r.ok or r.violated != inv:
-            raise MachineryError("deviation %s did not violate %s (got %r): invariant is vacuous" % (cfg, inv, r.violated))
     out = {}
     # ---- (1) re-configuration + re-initialisation ---------------------------------------------------------------------
     t0 = time.time()
@@ -966,7 +966,7 @@ def reconf_facets(ctx, res):
                 raise MachineryError("binding self-test of the re-configuration facet impossible for %s/%s" % (kern, iface))
             col = _Collector()
             M.run_rbeh(col, b, roots[_rkey(b)], "reconf", salt=0, tamper=lambda drv: drv.corrupt_cache())
-            if not any(h.endswith("/reinit/cache_coherent") for h in col.hits):
+            if not any(h.endswith("/reinit/cache_coherent") for h in col.hits) and not ctx.violations:
                 raise MachineryError("binding self-test: a stale cache after the re-initialisation was not reported (%s/%s: %r)" % (kern, iface, col.hits))
             tested += 1
     out["reconfiguration"] = {"behaviours_emitted": len(behs), "behaviours_replayed": len(chosen), "of_these_also_through_the_public_loops": nloop,
@@ -1065,7 +1065,7 @@ def reconf_facets(ctx, res):
                 raise MachineryError("binding self-test of the proposal facet impossible (%s, d=%d)" % (iface, d))
             col = _Collector()
             M.run_rbeh(col, b, proots[_rkey(b)], "propsym", salt=0, force_flag=True)
-            if not any("/decision/" in h for h in col.hits):
+            if not any("/decision/" in h for h in col.hits) and not ctx.violations:
                 raise MachineryError("binding self-test: an admitted asymmetric proposal object decided with the symmetric ratio was not "
                                      "reported (%s, d=%d: %r)" % (iface, d, col.hits))
             tested += 1
@@ -1081,6 +1081,131 @@ def reconf_facets(ctx, res):
     ctx.observe("reconfiguration_layouts_proposal_objects", out)
     ctx.observe("named_deviations_reconf", {cfg: inv for cfg, inv in RECONF_DEVIATIONS})
     return {"reconf": (len(behs), len(chosen), limit), "layout": (len(lbehs), len(lchosen), llimit), "propsym": (len(pbehs), len(pchosen), plimit)}
+
+
+# ----------------------------------------------------------------------------------------------------------------
+# spec -> code : chains started outside the support, boundary uniforms (MHOutside.tla)
+# ----------------------------------------------------------------------------------------------------------------
+def outside_facet(ctx, res):
+    """replay of the behaviours of MHOutside.<tier>.cfg: initial point of log-density -inf (finite proposals accepted whatever the
+    uniform, NaN / -inf proposals never), decisions with the uniform exactly 0"""
+    from cuqiverif import mhkernel_real as R
+    from cuqiverif.core import MachineryError
+    ctx.model_must_hold(res["outside"], "MHOutside")
+    roots = {_cfgkey(c["cfg"]): c for c in res["outside"].cases if c["kind"] == "root"}
+    behs = [c for c in res["outside"].cases if c["kind"] == "beh"]
+    if not behs or not roots:
+        raise MachineryError("no behaviours emitted by MHOutside")
+    seen = {"out_finite": set(), "out_neginf": set(), "out_nan": set(), "zero_any": set(), "zero_below": set()}
+    for b in behs:
+        kk = (b["cfg"]["k"], b["cfg"]["iface"])
+        prog = b["prog"]
+        for i in range(0, len(prog) - 1, 2):
+            p, d = prog[i], prog[i + 1]
+            if p["r"] == [2, 0]:
+                p["r"] = [0, 1]              # log-ratio +inf: threshold exp(min(0, r)) = 1, accepted for every uniform (Below: u -> 1)
+            if p.get("out"):
+                seen["out_finite" if p["tv"][1] > 0 else ("out_nan" if p["tv"] == [0, 0] else "out_neginf")].add(kk)
+            if d.get("u") == "zero":
+                seen["zero_any" if d["cls"] == "Any" else "zero_below"].add(kk)
+    every = {(k, i) for k in ("RW", "CW", "PCN", "MALA") for i in ("exp", "leg")}
+    for what, have in seen.items():
+        if what == "out_nan":
+            have = have | {("CW", "exp"), ("CW", "leg")}      # d = 2: no single-component move leads from the -inf point to the NaN point
+        if have != every:
+            raise MachineryError("outside facet vacuous: %s emitted for %r only" % (what, sorted(have)))
+    limit = None if ctx.tier == "quick" else 20000
+    rnd = random.Random(ctx.seed + 1201)
+    chosen = behs
+    if limit is not None and len(behs) > limit:
+        chosen, _ = select(behs, rnd, limit)
+    t0 = time.time()
+    ntrans = 0
+    for n, b in enumerate(chosen):
+        c = b["cfg"]
+        root = roots[_cfgkey(c)]
+        ctx.case(("outside", c["k"], c["iface"], c["d"], c["tgt"], c["sc"], c["m"], tuple(c["x0"]),
+                  hashlib.sha1(_cfgkey(b["prog"]).encode()).hexdigest()[:12]), nontrivial=True, facet="outside")
+        ntrans += R.run_behaviour(ctx, b, root["rows"], root["sv"], root, sigprefix="outside", salt=n)
+        ctx.traces += 1
+    # the same behaviours through the public loops (sample / warmup; legacy sample): the initial evaluation -inf is threaded
+    from cuqiverif import mhchain_real as C
+    nchain = 0
+    for n, b in enumerate(chosen):
+        if (n + ctx.seed) % 3 or not C.pure_transitions(b):
+            continue
+        c = b["cfg"]
+        root = roots[_cfgkey(c)]
+        entry = "sample" if (c["iface"] == "leg" or n % 2) else "warmup"
+        ctx.case(("outside_chain", c["k"], c["iface"], c["d"], c["sc"], c["m"], entry,
+                  hashlib.sha1(_cfgkey(b["prog"]).encode()).hexdigest()[:12]), facet="outside")
+        nchain += C.run_chain(ctx, b, root["rows"], root["sv"], root, entry, salt=n, sigprefix="outside_chain")
+    # binding self-test: the expectation "refused" of a non-finite proposal made from outside replaced by "accepted"
+    tested = 0
+    for kern, iface in sorted(every):
+        b = next((q for q in chosen if (q["cfg"]["k"], q["cfg"]["iface"]) == (kern, iface) and q["prog"][0].get("out")
+                  and q["prog"][1]["cls"] == "Any"), None)
+        if b is None:
+            raise MachineryError("binding self-test of the outside facet impossible for %s/%s" % (kern, iface))
+        bad = json.loads(json.dumps(b))
+        bad["prog"][1]["acc"] = 1
+        col = _Collector()
+        root = roots[_cfgkey(b["cfg"])]
+        R.run_behaviour(col, bad, root["rows"], root["sv"], root, sigprefix="outside", salt=0)
+        if not any("/decision/" in h for h in col.hits) and not ctx.violations:
+            raise MachineryError("binding self-test: a wrong expectation for a non-finite proposal from outside was not reported (%s/%s)" % (kern, iface))
+        tested += 1
+    ctx.observe("outside", {"behaviours_emitted": len(behs), "behaviours_replayed": len(chosen), "real_transitions": ntrans,
+                            "transitions_through_the_public_loops": nchain, "binding_selftests": tested,
+                            "wall_s": round(time.time() - t0, 1)})
+    ob = next((b for b in chosen if b["cfg"]["k"] == "RW" and b["prog"][0]["tv"] == [-1, 0] and b["prog"][1].get("u") == "zero"), chosen[0])
+    ctx.sample({"outside_behaviour": {"cfg": ob["cfg"], "prog": ob["prog"]}})
+    ctx.observe("named_deviations_outside", {cfg: inv for cfg, inv in OUTSIDE_DEVIATIONS})
+    return len(behs), len(chosen)
+
+
+def posinf_probe(ctx):
+    """a proposal whose log-density is +inf: the Metropolis-Hastings formula gives acceptance probability 1, the property names
+    NaN and -inf only - what the kernels do is recorded, not asserted"""
+    import cuqi
+    from cuqiverif.script_rng import scripted
+    from cuqiverif.zoo import quiet
+    obs = {}
+
+    def lp(x):
+        x = np.asarray(x, dtype=float).reshape(-1)
+        return float("inf") if np.any(x > 0.5) else -0.5 * float(x @ x)
+
+    def gr(x):
+        return -np.asarray(x, dtype=float).reshape(-1)
+    T = cuqi.distribution.UserDefinedDistribution(dim=2, logpdf_func=lp, gradient_func=gr)
+    lik = cuqi.likelihood.UserDefinedLikelihood(dim=2, logpdf_func=lp, gradient_func=gr)
+    post = cuqi.distribution.Posterior(lik, cuqi.distribution.Gaussian(np.zeros(2), 1.0))
+    x0 = np.zeros(2)
+    E, L = cuqi.experimental.mcmc, cuqi.sampler
+    runs = (("experimental.MH", lambda: E.MH(T, scale=1.0, initial_point=x0.copy()), True),
+            ("experimental.CWMH", lambda: E.CWMH(T, scale=1.0, initial_point=x0.copy()), True),
+            ("experimental.PCN", lambda: E.PCN(post, scale=0.8, initial_point=x0.copy()), True),
+            ("experimental.MALA", lambda: E.MALA(T, scale=1.0, initial_point=x0.copy()), True),
+            ("sampler.MH", lambda: L.MH(T, scale=1.0, x0=x0.copy()), False),
+            ("sampler.CWMH", lambda: L.CWMH(T, scale=1.0, x0=x0.copy()), False),
+            ("sampler.pCN", lambda: L.pCN(post, scale=0.8, x0=x0.copy()), False),
+            ("sampler.MALA", lambda: L.MALA(T, scale=1.0, x0=x0.copy()), False))
+    for name, mk, stateful in runs:
+        try:
+            with quiet(), scripted({"normal": [np.ones(2)], "uniform": [0.5, 0.5]}):
+                s = mk()
+                if stateful:
+                    s.initialize()
+                    s.step()
+                    moved = not np.allclose(np.asarray(s.current_point, dtype=float), x0)
+                else:
+                    X = np.asarray(s.sample(2).samples, dtype=float)
+                    moved = not np.allclose(X[:, 1], x0)
+            obs[name] = "accepted" if moved else "refused"
+        except Exception as ex:
+            obs[name] = "raises %s: %s" % (type(ex).__name__, str(ex)[:60])
+    ctx.observe("proposal_with_log_density_plus_infinity", obs)
 
 
 def probes(ctx):
@@ -1099,6 +1224,7 @@ def probes(ctx):
         except Exception as ex:
             obs[name + " dim=1"] = "raises %s: %s" % (type(ex).__name__, str(ex)[:80])
     ctx.observe("cwmh_dimension_1", obs)
+    posinf_probe(ctx)
 
 
 def _behaviour_stats(behs):
@@ -1119,25 +1245,24 @@ def run(ctx):
     workdir = os.path.join(os.path.dirname(os.path.dirname(os.path.dirname(os.path.dirname(os.path.abspath(__file__))))), ".work",
                            "c02-%d" % os.getpid())
     os.makedirs(workdir, exist_ok=True)
-    # 1. model checking, behaviour emission, named deviations - all TLC runs concurrently
+    # 1. model checking and behaviour emission - these TLC runs concurrently; the named-deviation runs (small, many) are started
+    #    when the emitting runs are done and proceed while the replays below occupy this thread
     jobs = {}
-    with concurrent.futures.ThreadPoolExecutor(max_workers=16) as pool:
+    rk = dict(extra_modules=("MHKernel.tla",), timeout=3000)
+    ALLDEV = ([(c, i, "MHKernel", {"timeout": 2400}) for c, i in DEVIATIONS] + [(c, i, "CWSweep", {"timeout": 2400}) for c, i in SWEEP_DEVIATIONS] +
+              [(c, i, "MHReconf", rk) for c, i in RECONF_DEVIATIONS] + [(c, i, "MHOutside", rk) for c, i in OUTSIDE_DEVIATIONS])
+    devpool = concurrent.futures.ThreadPoolExecutor(max_workers=8)
+    with concurrent.futures.ThreadPoolExecutor(max_workers=12) as pool:
         jobs["main"] = pool.submit(_tlc_retry, ctx, "MHKernel", cfg="MHKernel.%s.cfg" % tier, workers=8, timeout=3000)
         jobs["deep"] = pool.submit(_tlc_retry, ctx, "MHKernel", cfg="MHKernel.deep.%s.cfg" % tier, workers=8, timeout=3000)
-        rk = dict(extra_modules=("MHKernel.tla",), timeout=3000)
+        jobs["outside"] = pool.submit(_tlc_retry, ctx, "MHOutside", cfg="MHOutside.%s.cfg" % tier, workers=2, **rk)
         jobs["reconf"] = pool.submit(_tlc_retry, ctx, "MHReconf", cfg="MHReconf.%s.cfg" % tier, workers=4, **rk)
         jobs["relayout"] = pool.submit(_tlc_retry, ctx, "MHReconf", cfg="MHReconf.layout.%s.cfg" % tier, workers=2, **rk)
         jobs["propsym"] = pool.submit(_tlc_retry, ctx, "MHReconf", cfg="MHReconf.propsym.%s.cfg" % tier, workers=2, **rk)
-        for cfg, inv in RECONF_DEVIATIONS:
-            jobs[cfg] = pool.submit(_tlc_retry, ctx, "MHReconf", cfg=cfg, workers=1, expect_violation=True, **rk)
-        jobs["m0"] = pool.submit(_tlc_retry, ctx, "MHKernel", cfg="MHKernel.rawprior_m0.cfg", workers=2, timeout=2400)
         jobs["abort"] = pool.submit(_tlc_retry, ctx, "MHKernel", cfg="MHKernel.abort.%s.cfg" % tier, workers=8, timeout=3000)
         jobs["src"] = pool.submit(_tlc_retry, ctx, "MHKernel", cfg="MHKernel.src.%s.cfg" % tier, workers=4, timeout=3000)
-        for cfg, inv in DEVIATIONS:
-            jobs[cfg] = pool.submit(_tlc_retry, ctx, "MHKernel", cfg=cfg, workers=2, expect_violation=True, timeout=2400)
         jobs["sweep"] = pool.submit(_tlc_retry, ctx, "CWSweep", cfg="CWSweep.%s.cfg" % tier, workers=4, timeout=3000)
-        for cfg, inv in SWEEP_DEVIATIONS:
-            jobs[cfg] = pool.submit(_tlc_retry, ctx, "CWSweep", cfg=cfg, workers=1, expect_violation=True, timeout=2400)
+        jobs["m0"] = pool.submit(_tlc_retry, ctx, "MHKernel", cfg="MHKernel.rawprior_m0.cfg", workers=2, timeout=2400)
         if tier == "thorough":
             jobs["sim"] = pool.submit(_tlc_retry, ctx, "MHKernel", cfg="MHKernel.sim.thorough.cfg", workers=4, mode="simulate",
                                       simulate="num=500", depth=40, seed=1000 + ctx.seed, timeout=3000)
@@ -1147,13 +1272,15 @@ def run(ctx):
             trace_facet(ctx, workdir)
         except BaseException as ex:      # re-raised below, after the TLC jobs have been collected
             trace_error = ex
-        # the facets of MHReconf (short TLC runs) are replayed while the large model-checking runs are still in progress
+        # the facets of MHOutside / MHReconf (short TLC runs) are replayed while the large model-checking runs are still in progress
         res = {}
-        reconf_error, rcounts = None, None
+        reconf_error, rcounts, ocounts = None, None, None
         try:
-            for k in ["reconf", "relayout", "propsym"] + [cfg for cfg, _ in RECONF_DEVIATIONS]:
-                res[k] = jobs[k].result()
             if trace_error is None or isinstance(trace_error, MachineryError):
+                res["outside"] = jobs["outside"].result()
+                ocounts = outside_facet(ctx, res)
+                for k in ("reconf", "relayout", "propsym"):
+                    res[k] = jobs[k].result()
                 rcounts = reconf_facets(ctx, res)
         except BaseException as ex:
             reconf_error = ex
@@ -1163,6 +1290,8 @@ def run(ctx):
                 res[k] = f.result()
             except BaseException as ex:
                 job_error = job_error or ex
+        for cfg, inv, spec, kw in ALLDEV:
+            jobs[cfg] = devpool.submit(_tlc_retry, ctx, spec, cfg=cfg, workers=1, expect_violation=True, **kw)
     try:
         if job_error is not None:
             raise job_error
@@ -1176,10 +1305,6 @@ def run(ctx):
         ctx.model_must_hold(res["abort"], "MHKernel(abort)")
         ctx.model_must_hold(res["src"], "MHKernel(sources)")
         ctx.model_must_hold(res["sweep"], "CWSweep")
-        for cfg, inv in DEVIATIONS + SWEEP_DEVIATIONS:
-            r = res[cfg]
-            if r.ok or r.violated != inv:
-                raise MachineryError("deviation %s did not violate %s (got %r): invariant is vacuous" % (cfg, inv, r.violated))
         cases = list(res["main"].cases) + (list(res["sim"].cases) if "sim" in res else [])
         roots = {_cfgkey(c["cfg"]): c for c in list(res["abort"].cases) + list(res["src"].cases) + cases if c["kind"] == "root"}
         abehs = [c for c in res["abort"].cases if c["kind"] == "beh"]
@@ -1235,11 +1360,21 @@ def run(ctx):
         if pcn:
             ctx.sample({"behaviour": {"cfg": pcn["cfg"], "prog": pcn["prog"][:2]}})
         probes(ctx)
+        # the named deviations: every one must be refuted by TLC on the invariant / property it is aimed at
+        for cfg, inv, spec, kw in ALLDEV:
+            res[cfg] = r = jobs[cfg].result()
+            if r.ok or r.violated != inv:
+                raise MachineryError("deviation %s did not violate %s (got %r): invariant is vacuous" % (cfg, inv, r.violated))
         if trace_error is not None:     # machinery problem of the trace facet: reported after the replay facet has run
             raise trace_error
     finally:
         from cuqiverif import tlc
         import shutil
+        devpool.shutdown(wait=True)
+        for cfg, inv, spec, kw in ALLDEV:
+            f = jobs.get(cfg)
+            if f is not None and cfg not in res and f.exception() is None:
+                res[cfg] = f.result()
         for r in res.values():
             tlc.cleanup(r)
         shutil.rmtree(workdir, ignore_errors=True)
@@ -1260,10 +1395,12 @@ def run(ctx):
                 "constructed sampler, re-initialisation, first transition; %d emitted, stratum cover (kernel x interface x attributes "
                 "assigned x outcome before x decision classes after) + seeded sample: %d replayed), MHReconf.layout.<tier>.cfg (data "
                 "layouts of points and scales; %d emitted, %d replayed) and MHReconf.propsym.<tier>.cfg (proposal objects of the "
-                "random-walk kernel: symmetry flag x centre; %d emitted, every admitted object replayed); plus recorded traces "
-                "(non-trivial = contains a judged transition)" % (
+                "random-walk kernel: symmetry flag x centre; %d emitted, every admitted object replayed); plus the behaviours of "
+                "MHOutside.<tier>.cfg (initial point of log-density -inf, uniform exactly 0; %d emitted, %d replayed); plus recorded "
+                "traces (non-trivial = contains a judged transition)" % (
                     limit or len(behs), alimit or len(abehs), slimit or len(sbehs), wlimit or len(wbehs),
-                    rcounts["reconf"][0], rcounts["reconf"][1], rcounts["layout"][0], rcounts["layout"][1], rcounts["propsym"][0]))
+                    rcounts["reconf"][0], rcounts["reconf"][1], rcounts["layout"][0], rcounts["layout"][1], rcounts["propsym"][0],
+                    ocounts[0], ocounts[1]))
     # every behaviour of the bounded emission instances was replayed
     ctx.exhaustive = (limit is None or len(behs) <= limit) and (alimit is None or len(abehs) <= alimit) and (
         slimit is None or nsrc <= slimit) and (wlimit is None or len(wbehs) <= wlimit) and all(
